@@ -1254,26 +1254,32 @@ def r3_shift_once(corpus: Corpus, rep: Report, tier: str):
             k = f"{fi.fq}|writes .map|{short(st, 70)}"
             rep.violation(R3, k, fi.module.site(st), f"{fi.qualname} rewrites a token map (`{short(st, 60)}`): only _render_tokens and nested_render_text may shift maps, each once; any further writer shifts the line of every node built from the token")
     # (b) shape of the two shifters (the stores may live in a private helper called from the shifter)
-    for top, want, desc in ((rt, "1", "+1 (0-based -> 1-based)"), (nrt, None, "+lineno (absolute position of the nested text)")):
+    amounts: dict[str, tuple | None] = {}  # shifter fq -> (amount text, function the store lives in, helper chain) | None = no shift
+    undecided = False
+    for top, desc in ((rt, "0-based -> 1-based"), (nrt, "absolute position of the nested text")):
         fi, chain = impls[top.fq]
         if fi is None:
             why = chain[0] if chain else ("none", 0)
             if why[0] == "none":
-                rep.violation(R3, f"{top.fq}|number of map shifts", top.site(), f"{top.name} contains no map-shifting store (neither itself nor in a helper it calls), expected exactly one ({desc})")
+                amounts[top.fq] = None  # no shift of its own: the total over the call chain decides (see below)
+                if top is nrt:
+                    # the list handed to _render_tokens must still be freshly parsed
+                    hcalls = [c for cf, c in _real_callers(corpus, rt) if cf.fq == nrt.fq]
+                    a0_ = hcalls[0].args[0] if hcalls and hcalls[0].args else None
+                    k = f"{top.fq}|the shifted list is the rendered list, freshly parsed"
+                    if isinstance(a0_, ast.Name):
+                        fresh = [v for _, v, how in _defs(top, a0_.id) if how == "assign"]
+                        is_fresh = bool(fresh) and all(any(isinstance(c, ast.Call) and isinstance(c.func, ast.Attribute) and c.func.attr in ("parse", "parseInline") and "self.md" in unparse(c.func.value) for c in ast.walk(v)) for v in fresh)
+                        if is_fresh:
+                            rep.ok(R3, k, top.module.site(hcalls[0]), "tokens = self.md.parse*/parseInline(...)")
+                        else:
+                            rep.violation(R3, k, top.module.site(hcalls[0]), f"nested_render_text renders `{a0_.id}`, which is not freshly produced by self.md.parse*, so tokens may be shifted twice")
+                    else:
+                        rep.error(R3, "nested_render_text: cannot see which list is handed to _render_tokens")
             else:
+                undecided = True
                 rep.error(R3, f"{top.name}: {why[1]} helpers with map stores are called; cannot tell which one is the shift")
             continue
-        if want is None:
-            want = top.params[2] if len(top.params) > 2 else "lineno"
-            if LINE_SINKS.get(nrt.fq, (None, want))[1] != want:
-                rep.error(R3, f"nested_render_text's line parameter is `{want}`, the convention table says `{LINE_SINKS[nrt.fq][1]}`")
-            # rename through the helper chain: which helper parameter receives the line parameter?
-            for caller, helper, call in chain:
-                hit = [p for p in helper.params if (a := _arg_for(call, helper, p)) is not None and unparse(a) == want]
-                if len(hit) != 1:
-                    rep.error(R3, f"{caller.module.site(call)}: cannot see which parameter of {helper.name} receives `{want}`")
-                    hit = [want]
-                want = hit[0]
         stores = _map_stores(fi)
         shifting = []
         n_err = len(rep.errors)
@@ -1294,19 +1300,21 @@ def r3_shift_once(corpus: Corpus, rep: Report, tier: str):
                 continue
             shifting.append((st, tok, amt))
         if len(rep.errors) > n_err:
+            undecided = True
             continue  # an idiom was not understood: already an ANALYSIS-ERROR, never a violation
         if len(shifting) != 1:
-            rep.violation(R3, f"{top.fq}|number of map shifts", fi.site(), f"{fi.name} contains {len(shifting)} map-shifting stores, expected exactly one ({desc})")
+            undecided = True
+            rep.violation(R3, f"{top.fq}|number of map shifts", fi.site(), f"{fi.name} contains {len(shifting)} map-shifting stores, expected at most one ({desc})")
             continue
         st, tok, (a0, a1) = shifting[0]
         k = f"{top.fq}|shift both ends by the same amount"
         site = fi.module.site(st)
         if a0 != a1:
+            undecided = True
             rep.violation(R3, k, site, f"`{short(st.value, 60)}` shifts the first line by {a0} and the end line by {a1}")
-        elif a0 != want:
-            rep.violation(R3, k, site, f"`{short(st.value, 60)}` shifts by {a0}, expected {desc}")
         else:
-            rep.ok(R3, k, site, desc + (f" (in helper {fi.name})" if fi is not top else ""))
+            amounts[top.fq] = (a0, fi, chain)
+            rep.ok(R3, k, site, f"+{a0} on both ends" + (f" (in helper {fi.name})" if fi is not top else ""))
         # the loop walks the token list that is rendered afterwards, and the only guard is the map itself
         loop = next((a for a in ancestors(st) if isinstance(a, ast.For) and isinstance(a.target, ast.Name) and a.target.id == tok), None)
         cfg = get_cfg(fi)
@@ -1381,6 +1389,91 @@ def r3_shift_once(corpus: Corpus, rep: Report, tier: str):
                 rep.ok(R3, k, top.module.site(call), "tokens = self.md.parse*/parseInline(...)")
             else:
                 rep.violation(R3, k, top.module.site(call), f"nested_render_text renders `{list_name}`, which is not freshly produced by self.md.parse*, so tokens may be shifted twice")
+    # (b2) total shift along each entry path: render -> _render_tokens = 1;  nested_render_text(text, lineno) -> ... = lineno + 1
+    def bind(callee: FunctionInfo, call: ast.Call, caller: FunctionInfo, caller_env: dict) -> dict:
+        env = {}
+        for pn in callee.params:
+            if pn in ("self", "cls"):
+                continue
+            a = _arg_for(call, callee, pn)
+            if a is not None:
+                env[pn] = (a, caller, caller_env)
+            else:
+                d = _param_default(callee, pn)
+                if d is not None:
+                    env[pn] = (d, callee, {})
+        return env
+
+    def lin(e: ast.expr, ctx: FunctionInfo, env: dict, depth: int = 0):
+        """Linear form {symbol: coefficient}, constant of an integer expression, parameters substituted through ``env``."""
+        if depth > 12:
+            return None
+        if isinstance(e, ast.Constant) and isinstance(e.value, int) and not isinstance(e.value, bool):
+            return {}, e.value
+        if isinstance(e, ast.UnaryOp) and isinstance(e.op, ast.USub):
+            r = lin(e.operand, ctx, env, depth + 1)
+            return None if r is None else ({k_: -v_ for k_, v_ in r[0].items()}, -r[1])
+        if isinstance(e, ast.BinOp) and isinstance(e.op, (ast.Add, ast.Sub)):
+            l_, r_ = lin(e.left, ctx, env, depth + 1), lin(e.right, ctx, env, depth + 1)
+            if l_ is None or r_ is None:
+                return None
+            sg = 1 if isinstance(e.op, ast.Add) else -1
+            co = dict(l_[0])
+            for k_, v_ in r_[0].items():
+                co[k_] = co.get(k_, 0) + sg * v_
+            return {k_: v_ for k_, v_ in co.items() if v_}, l_[1] + sg * r_[1]
+        if isinstance(e, ast.Name):
+            if e.id in ctx.params and not _defs(ctx, e.id):
+                if e.id in env:
+                    a, cf, cenv = env[e.id]
+                    return lin(a, cf, cenv, depth + 1)
+                return {e.id: 1}, 0
+            ds = _defs(ctx, e.id)
+            if len(ds) == 1 and ds[0][2] == "assign" and ds[0][1] is not None:
+                return lin(ds[0][1], ctx, env, depth + 1)
+        return None
+
+    def amount_on_path(shifter: FunctionInfo, env_top: dict):
+        am = amounts.get(shifter.fq)
+        if am is None:
+            return {}, 0
+        text, body, chain_ = am
+        env = env_top
+        for caller, helper, call in chain_:
+            env = bind(helper, call, caller, env)
+        return lin(ast.parse(text, mode="eval").body, body, env)
+
+    def add_lin(x, y):
+        if x is None or y is None:
+            return None
+        co = dict(x[0])
+        for k_, v_ in y[0].items():
+            co[k_] = co.get(k_, 0) + v_
+        return {k_: v_ for k_, v_ in co.items() if v_}, x[1] + y[1]
+
+    def show(x) -> str:
+        parts = [(f"{v_}*" if v_ != 1 else "") + k_ for k_, v_ in sorted(x[0].items())] + ([str(x[1])] if x[1] or not x[0] else [])
+        return " + ".join(parts)
+
+    if not undecided and rt.fq in amounts and nrt.fq in amounts:
+        render = corpus.func(RENDER)
+        line_param = LINE_SINKS[nrt.fq][1]
+        if line_param not in nrt.params:
+            rep.error(R3, f"nested_render_text has no parameter `{line_param}` (convention table)")
+        for entry, want, label in ((render, ({}, 1), "1 (0-based -> 1-based)"), (nrt, ({line_param: 1}, 1), f"{line_param} + 1")):
+            calls_rt = [c for cf, c in _real_callers(corpus, rt) if cf.fq == entry.fq]
+            k = f"{entry.fq}|total map shift before rendering"
+            if len(calls_rt) != 1:
+                continue  # reported by the callers check below
+            total = amount_on_path(rt, bind(rt, calls_rt[0], entry, {}))
+            if entry is nrt:
+                total = add_lin(amount_on_path(nrt, {}), total)
+            if total is None:
+                rep.error(R3, f"{entry.module.site(calls_rt[0])}: the map shift applied on the way from {entry.name} to the renderer is not a sum of parameters and constants; not understood")
+            elif total == want:
+                rep.ok(R3, k, entry.module.site(calls_rt[0]), f"token lines are shifted by {label} in total")
+            else:
+                rep.violation(R3, k, entry.module.site(calls_rt[0]), f"on the way from {entry.name}() to the render dispatch every token map is shifted by {show(total)} in total; it must be {label}, otherwise every node built from these tokens reports a wrong line")
     # (c) callers of _render_tokens
     callers = _real_callers(corpus, rt)
     names = sorted({c.fq for c, _ in callers})
@@ -1416,7 +1509,7 @@ def r3_shift_once(corpus: Corpus, rep: Report, tier: str):
                         rep.violation(R3, k, site, f"`{short(n, 60)}` prepends {nl} line(s) to the token's content while its map (the anchor passed on as `position`) is unchanged: the directive body parser strips the blank line and counts it in body_offset, so every line nested in this directive is reported {nl} too high")
                 else:
                     rep.error(R3, f"{site}: `{short(n, 60)}` rewrites a token's content; cannot tell whether the number of leading lines is preserved")
-    rep.expect_min(R3, 8, "shape, guard, once-only, caller obligations of the two map shifters")
+    rep.expect_min(R3, 6, "shape, guard, once-only, total-shift and caller obligations of the map shifters")
 
 
 # ---------------------------------------------------------------------------
@@ -2163,53 +2256,74 @@ def r7_start_accumulator(corpus: Corpus, rep: Report, tier: str):
                 rep.error(R7, f"{site}: the START call does not pass one text name and a line argument built from one name; accumulator not understood")
                 continue
             V, T = next(iter(vnames)), text.id  # `startline`, also inside `startline + k` (the constant is R2's business)
-            cfg = get_cfg(fi)
-            sink_stmt = cfg.stmt_of(call)
-            defs_v = _defs(fi, V)
-            cuts = []
-            for st, v, how in _defs(fi, T):
-                if how == "assign" and v is not None and st is not None:
-                    for kind, lower in _head_cuts(v, T, K, fi):
-                        cuts.append((st, kind, lower))
-                    for c in ast.walk(v):
-                        if isinstance(c, ast.Call) and isinstance(c.func, ast.Attribute) and c.func.attr in ("strip", "lstrip") and isinstance(c.func.value, ast.Name) and c.func.value.id == T:
-                            chars = c.args[0].value if c.args and isinstance(c.args[0], ast.Constant) and isinstance(c.args[0].value, str) else None
-                            if not c.args or chars is None or "\n" in chars:
-                                rep.violation(R7, f"{fi.fq}|{sink_name}|strips {short(st, 60)}", fi.module.site(st), f"`{short(st, 60)}` strips leading blank lines from the text; their number is not added to `{V}`, so the rest of the file is reported too low")
-            reported: set[int] = set()
-            for st, kind, lower in cuts:
-                ln = _names(lower)
-                k = f"{fi.fq}|{sink_name}|cut {short(st, 60)}"
-                csite = fi.module.site(st)
-                if kind == "lines":
-                    flows = V in ln or any(v is not None and (ln & _names(v)) for _, v, _h in defs_v)
-                    if flows:
-                        rep.ok(R7, k, csite, f"{short(lower, 30)} leading line(s) cut and carried in `{V}`")
+
+            def judge(fi: FunctionInfo, V: str, T: str, sink_stmts: list, depth: int = 0) -> None:
+                """Cuts of text ``T`` / definitions of accumulator ``V`` in ``fi``; `T, V = helper(...)` is followed into the helper."""
+                for n_ in fi.local_nodes():
+                    if isinstance(n_, ast.Assign) and len(n_.targets) == 1 and isinstance(n_.targets[0], (ast.Tuple, ast.List)):
+                        nm_ = [e.id if isinstance(e, ast.Name) else None for e in n_.targets[0].elts]
+                        if V not in nm_ and T not in nm_:
+                            continue
+                        done_ = False
+                        if V in nm_ and T in nm_ and isinstance(n_.value, ast.Call) and depth < 2:
+                            hs = [t for t in get_callgraph(corpus).resolve_call(n_.value, fi) if isinstance(t, FunctionInfo) and not t.is_lambda]
+                            if len(hs) == 1:
+                                rets = [r for r in hs[0].local_nodes() if isinstance(r, ast.Return)]
+                                if rets and all(isinstance(r.value, ast.Tuple) and len(r.value.elts) == len(nm_) and isinstance(r.value.elts[nm_.index(V)], ast.Name) and isinstance(r.value.elts[nm_.index(T)], ast.Name) for r in rets):
+                                    pairs_ = {(r.value.elts[nm_.index(V)].id, r.value.elts[nm_.index(T)].id) for r in rets}
+                                    if len(pairs_) == 1:
+                                        hv, ht = next(iter(pairs_))
+                                        judge(hs[0], hv, ht, [get_cfg(hs[0]).stmt_of(r) for r in rets], depth + 1)
+                                        done_ = True
+                        if not done_:
+                            rep.error(R7, f"{fi.module.site(n_)}: `{short(n_, 60)}` rebinds the text and/or its skipped-lines count from a call; not understood")
+                cfg = get_cfg(fi)
+                defs_v = _defs(fi, V)
+                cuts = []
+                for st, v, how in _defs(fi, T):
+                    if how == "assign" and v is not None and st is not None:
+                        for kind, lower in _head_cuts(v, T, K, fi):
+                            cuts.append((st, kind, lower))
+                        for c in ast.walk(v):
+                            if isinstance(c, ast.Call) and isinstance(c.func, ast.Attribute) and c.func.attr in ("strip", "lstrip") and isinstance(c.func.value, ast.Name) and c.func.value.id == T:
+                                chars = c.args[0].value if c.args and isinstance(c.args[0], ast.Constant) and isinstance(c.args[0].value, str) else None
+                                if not c.args or chars is None or "\n" in chars:
+                                    rep.violation(R7, f"{_key_owner(corpus, fi).fq}|{sink_name}|strips {short(st, 60)}", fi.module.site(st), f"`{short(st, 60)}` strips leading blank lines from the text; their number is not added to `{V}`, so the rest of the file is reported too low")
+                reported: set[int] = set()
+                for st, kind, lower in cuts:
+                    ln = _names(lower)
+                    k = f"{_key_owner(corpus, fi).fq}|{sink_name}|cut {short(st, 60)}"
+                    csite = fi.module.site(st)
+                    if kind == "lines":
+                        flows = V in ln or any(v is not None and (ln & _names(v)) for _, v, _h in defs_v)
+                        if flows:
+                            rep.ok(R7, k, csite, f"{short(lower, 30)} leading line(s) cut and carried in `{V}`")
+                        else:
+                            rep.violation(R7, k, csite, f"`{short(st, 60)}` cuts {short(lower, 30)} leading line(s) from the text but `{V}` (the line argument) never receives that count: every line of the included text is reported too low")
                     else:
-                        rep.violation(R7, k, csite, f"`{short(st, 60)}` cuts {short(lower, 30)} leading line(s) from the text but `{V}` (the line argument) never receives that count: every line of the included text is reported too low")
-                else:
-                    lk, _p = _stmt_list_of(st)
-                    feeders = {V} | {nm for _, v, _h in defs_v for nm in _names(v)}
-                    partners = []
-                    for sib in getattr(_p, _stmt_list_of(st)[0][1], []):
-                        tgt = sib.target if isinstance(sib, ast.AugAssign) else (sib.targets[0] if isinstance(sib, ast.Assign) and len(sib.targets) == 1 else None)
-                        if sib is not st and isinstance(tgt, ast.Name) and tgt.id in feeders and tgt.id != T:
-                            partners.append(sib)
-                    if partners:
-                        rep.ok(R7, k, csite, f"character cut paired with `{short(partners[0], 50)}`")
-                    else:
-                        rep.violation(R7, k, csite, f"`{short(st, 60)}` cuts a prefix off the text but nothing in the same block adds the number of cut lines to `{V}`: the rest of the file is reported too low")
-                # a plain re-assignment of V between this cut and the sink forgets the lines counted so far
-                reach = cfg.reachable_from(st)
-                for d, v, how in defs_v:
-                    if how != "assign" or d is None or v is None or id(d) in reported or d is st:
-                        continue
-                    nm = _names(v)
-                    if V in nm or (kind == "lines" and (ln & nm)):
-                        continue
-                    if d in reach and sink_stmt in cfg.reachable_from(d):
-                        reported.add(id(d))
-                        rep.violation(R7, f"{fi.fq}|{sink_name}|overwrites {short(d, 60)}", fi.module.site(d), f"`{short(d, 60)}` assigns `{V}` afresh after `{short(st, 50)}` already cut lines from the head of the text: the lines skipped before are forgotten (use `{V} += ...`), so the included text is reported too low when both cuts apply")
+                        lk, _p = _stmt_list_of(st)
+                        feeders = {V} | {nm for _, v, _h in defs_v for nm in _names(v)}
+                        partners = []
+                        for sib in getattr(_p, _stmt_list_of(st)[0][1], []):
+                            tgt = sib.target if isinstance(sib, ast.AugAssign) else (sib.targets[0] if isinstance(sib, ast.Assign) and len(sib.targets) == 1 else None)
+                            if sib is not st and isinstance(tgt, ast.Name) and tgt.id in feeders and tgt.id != T:
+                                partners.append(sib)
+                        if partners:
+                            rep.ok(R7, k, csite, f"character cut paired with `{short(partners[0], 50)}`")
+                        else:
+                            rep.violation(R7, k, csite, f"`{short(st, 60)}` cuts a prefix off the text but nothing in the same block adds the number of cut lines to `{V}`: the rest of the file is reported too low")
+                    # a plain re-assignment of V between this cut and the sink forgets the lines counted so far
+                    reach = cfg.reachable_from(st)
+                    for d, v, how in defs_v:
+                        if how != "assign" or d is None or v is None or id(d) in reported or d is st:
+                            continue
+                        nm = _names(v)
+                        if V in nm or (kind == "lines" and (ln & nm)):
+                            continue
+                        if d in reach and any(sk in cfg.reachable_from(d) for sk in sink_stmts):
+                            reported.add(id(d))
+                            rep.violation(R7, f"{_key_owner(corpus, fi).fq}|{sink_name}|overwrites {short(d, 60)}", fi.module.site(d), f"`{short(d, 60)}` assigns `{V}` afresh after `{short(st, 50)}` already cut lines from the head of the text: the lines skipped before are forgotten (use `{V} += ...`), so the included text is reported too low when both cuts apply")
+            judge(fi, V, T, [get_cfg(fi).stmt_of(call)])
     if n_sites == 0:
         rep.error(R7, "no START-convention call site found")
     rep.expect_min(R7, 3, "START call sites and head cuts of the included text (start-line slice, start-after cut)")
